@@ -141,7 +141,9 @@ class Gen:
         if kind == "spacer":
             return self.node("mj-spacer")
         if kind == "table":
-            return self.node("mj-table", text="<tr><td>%s</td></tr>" % self.sentinel())
+            shape = r.choice(["<tr><td>%s</td></tr>", "<tr><td>%s</td></tr>", "<tr><td>%s <b>bold</b></td><td class=\"k\" style=\"padding:4px\">x</td></tr>",
+                              "<tr>\n  <td> %s </td>\n</tr>"])
+            return self.node("mj-table", text=shape % self.sentinel())
         if kind == "social":
             els = [self.node("mj-social-element", text=self.sentinel(), force=("name",)) for _ in range(r.randint(1, 3))]
             return self.node("mj-social", children=els)
